@@ -131,6 +131,9 @@ pub const OPENERS: &[(&str, &str)] = &[
     ("{$if ", "}"),
     ("(*$if ", "*)"),
     ("{$if A}{$elseif {$if ", "}}"),
+    // else-if chains of conditional blocks: each inner block sits in the last branch of the outer
+    ("{$ifdef A} a; {$else} ", "{$endif} "),
+    ("{$if A} a; {$elseif B} b; {$else} ", "{$ifend} "),
 ];
 
 /// A nest of `depth` copies of one construct (for the work-scaling oracle).
